@@ -75,7 +75,10 @@ type Gen struct {
 
 	templates map[string][]string // ecosystem -> range templates
 	words     map[string][]string // ecosystem -> alphabetic tokens seen in its versions
+	seps      map[string][]string // ecosystem -> separators its compound ranges use
 }
+
+var compoundSeps = []string{" || ", "||", " | ", ", ", ",", " and ", " or ", " "}
 
 func (g *Gen) initTemplates() {
 	g.templates = map[string][]string{}
@@ -83,6 +86,20 @@ func (g *Gen) initTemplates() {
 	for n, ec := range g.class {
 		g.templates[n] = templatesOf(ec.ranges)
 		g.words[n] = wordsOf(ec.versions)
+	}
+	g.seps = map[string][]string{}
+	for n, ec := range g.class {
+		for _, sep := range compoundSeps {
+			cnt := 0
+			for _, r := range ec.ranges {
+				if strings.Contains(strings.TrimSpace(r), sep) {
+					cnt++
+				}
+			}
+			if cnt >= 2 {
+				g.seps[n] = append(g.seps[n], sep)
+			}
+		}
 	}
 }
 
